@@ -29,7 +29,7 @@ Print Assumptions C36_literal_typed.
 
 (** *** Table / MatrixTable level (model: Typing/TableModel.v, proofs: Typing/TableSound.v) *)
 
-(** For EVERY program over range_table / key_by / annotate / select / drop / annotate_globals / filter / annotate with a lookup
+(** For EVERY program over range_table / key_by / annotate / select / drop / annotate_globals / filter / order_by / annotate with a lookup
     [r.index(k1, .., all_matches)] by non-key expressions (exact key: TableLeftJoinRightDistinct; interval key indexed by a
     point: TableIntervalJoin with the product flag) / rows() / cols() / entries() / range_matrix_table / annotate_rows / _cols /
     _entries / _globals / key_rows_by / key_cols_by / annotate_rows with a lookup into an interval-keyed table
